@@ -30,6 +30,7 @@ type Gen struct {
 	fdPool    []*FlowDescIntent
 	stopAt    int
 	between   int
+	midStop   bool
 	mass      int // >0: many sessions with 8 periodic URRs of one period (batch limit)
 	massPeriod uint32
 }
@@ -748,9 +749,19 @@ func (g *Gen) next() (Action, bool) {
 		if g.stopAt == 0 {
 			g.stopAt = len(s.smfs) + 3 + g.intn(max(1, s.cfg.Steps-8))
 			g.between = g.intn(4)
+			g.midStop = g.chance(0.3)
+		}
+		if g.midStop && g.n == g.stopAt-1 {
+			return Action{Op: "armstop", N: 1 + g.intn(8)}, true
 		}
 		switch {
 		case g.n == g.stopAt:
+			if g.midStop {
+				// something that makes the event loop call the data plane
+				if a, ok := g.one(); ok {
+					return a, true
+				}
+			}
 			return Action{Op: "stop1"}, true
 		case g.n > g.stopAt && g.n <= g.stopAt+g.between:
 			switch g.intn(5) {
